@@ -41,7 +41,7 @@ def direction(r):
 class Gen:
     """Stateful generator: tracks which handles / views exist so that most operations are valid."""
 
-    def __init__(self, seed, mode="plain", nks=2, weights=None, filters=None, big=False, maxviews=4):
+    def __init__(self, seed, mode="plain", nks=2, weights=None, filters=None, big=False, maxviews=4, sealing=0):
         self.r = random.Random(seed)
         self.mode = mode
         self.nks = nks
@@ -54,8 +54,14 @@ class Gen:
         self.nsnap = self.nit = self.ntx = 0
         self.maxviews = maxviews
         self.filters = filters
+        # sealing = n > 0: up to n `bigfill`s of 66 MiB push the active journal over its 64 MB rotation threshold, so that
+        # sealed journals, eviction watermarks and sealed-journal recovery take part in the program (memtable limit raised
+        # so that only explicit rotations happen; journal compression off so that journal sizes are what the model computes)
+        self.sealing = sealing
+        self.fills = 0
         self.w = dict(put=10, delete=4, batch=3, clear=1, ingest=2, get=6, scan=5, misc=3,
-                      rotate=2, step=3, major=1, reopen=1, snap=0, it=0, tx=0, txop=0, gc=0, ks=0.5, delks=0)
+                      rotate=2, step=3, major=1, reopen=1, snap=0, it=0, tx=0, txop=0, gc=0, ks=0.5, delks=0,
+                      bigfill=(3 if sealing else 0))
         if weights:
             self.w.update(weights)
 
@@ -64,6 +70,8 @@ class Gen:
 
     def header(self):
         h = "open %s" % self.mode
+        if self.sealing:
+            h += " jcomp=none"
         if self.filters:
             h += " filters=" + ";".join("%s:%s" % kv for kv in self.filters.items())
         self.emit(h)
@@ -71,7 +79,7 @@ class Gen:
             self.open_ks(i)
 
     def open_ks(self, i):
-        self.emit("ks h%d %s" % (i, NAMES[i]))
+        self.emit("ks h%d %s%s" % (i, NAMES[i], " mt=400000000" if self.sealing else ""))
         if i not in self.handles:
             self.handles.append(i)
 
@@ -104,6 +112,22 @@ class Gen:
     # ---- operation kinds
     def op_put(self):
         self.emit("put %s %s %s" % (self.h(), key(self.r), val(self.r, self.big)))
+
+    def op_bigfill(self):
+        # never into a filtered keyspace: a 66 MiB table makes the compaction strategy really merge (and apply the filter to
+        # whatever it merges), which the model's strategy step does not follow (it applies filters at `major` only)
+        cands = [i for i in self.handles if not (self.filters and NAMES[i] in self.filters)]
+        if self.fills >= self.sealing or not cands:
+            return self.op_put()
+        h = "h%d" % self.r.choice(cands)
+        self.emit("bigfill %s 66 1024 t%d" % (h, self.fills))
+        self.fills += 1
+        # usually flush something right away: the worker's flush tick is what seals the journal
+        if self.r.random() < 0.75:
+            self.emit("rotate " + (h if self.r.random() < 0.7 else self.h()))
+            self.emit("drain")
+            self.emit("journals")
+            self.rot = 0
 
     def op_delete(self):
         self.emit("del %s %s" % (self.h(), key(self.r)))
@@ -154,6 +178,8 @@ class Gen:
         if c == "drain":
             self.rot = 0
         self.emit(c)
+        if self.sealing:
+            self.emit("journals")
 
     def op_major(self):
         self.emit("major " + self.h())
@@ -170,6 +196,11 @@ class Gen:
         self.handles = []
         for i in hs:
             self.open_ks(i)
+        if self.sealing:
+            self.emit("journals")    # sealed journals are registered again by recovery
+            self.emit("drain")       # recovery queues its flush tasks in hash-map order: observe only after they ran
+            self.emit("journals")
+            self.rot = 0
         self.emit("dump")
 
     def op_ks(self):
